@@ -36,16 +36,29 @@ MATCH = {
 }
 
 
-def argexpr(arity):
+# reference-parameter functions: kind -> (function prefix, arity, RK, what the caller passes)
+REFS = {"c": ("r", 1, "RK_C", "x.p1"), "m": ("w", 1, "RK_M", "x.p1"), "cm": ("u", 2, "RK_CM", "x.p1, x.p2")}
+MATCH_INT_REF = dict(MATCH, ANY=("ANY(int&)", "M_ANY"))  # ANY(int) does not bind to int&
+
+
+def argexpr(arity, ref=None):
+    if ref == "cm":
+        return "_1 * 100 + _2"
     return {0: "-1", 1: "_1", 2: "_1 * 10 + static_cast<int>(_2.size())"}[arity]
 
 
-def fn_name(arity, ty, lazy):
-    return "%s_%s_%s" % ("zpq"[arity], ty, "l" if lazy else "e")
+def writeexpr(ref):
+    return {"m": "_1 += 10", "cm": "_1 * 100 + (_2 += 10)"}[ref]
 
 
-def call_expr(arity, ty, lazy):
-    f = fn_name(arity, ty, lazy)
+def fn_name(arity, ty, lazy, ref=None):
+    return "%s_%s_%s" % (REFS[ref][0] if ref else "zpq"[arity], ty, "l" if lazy else "e")
+
+
+def call_expr(arity, ty, lazy, ref=None):
+    f = fn_name(arity, ty, lazy, ref)
+    if ref:  # every call gets its own argument objects, owned by the Ctx, alive until the case is over
+        return "[&](int a) { ArgCell& x = c.new_cell(a); return hold(m.%s(%s)); }" % (f, REFS[ref][3])
     if arity == 0:
         return "[&](int a) { (void)a; return hold(m.%s()); }" % f
     if arity == 1:
@@ -55,11 +68,17 @@ def call_expr(arity, ty, lazy):
 
 def render(i, s):
     ty, lazy, arity = s["ty"], s["lazy"], s.get("arity", 0)
+    ref = s.get("ref")                # None | "c" (int const&) | "m" (int&) | "cm" (int const&, int&)
+    if ref:
+        arity = REFS[ref][1]
     tyc, is_gen = TYPES[ty]
-    if ty == "giv" and s["fin"] in ("THROW", "LRTHROW", "THROWINT") and not COTHROW_ON_RETURN_VOID_GEN:
-        s = dict(s, fin="VOID")
     ys = s.get("yields", "")          # e.g. "CLC": CO_YIELD / LR_CO_YIELD per position
     k = len(ys)
+    use = s.get("use", "n" * (k + 1))  # reference-parameter sites: per clause n | p | r | w (see SiteInfo::use)
+    if ty == "giv" and s["fin"] in ("THROW", "LRTHROW", "THROWINT") and not COTHROW_ON_RETURN_VOID_GEN:
+        s = dict(s, fin="VOID")
+        use = use[:k] + "n"
+    assert len(use) == k + 1 and (ref or set(use) == {"n"}) and ("w" not in use or ref in ("m", "cm"))
     assert is_gen or k == 0
     fin = s["fin"]                    # RET LRRET RETARG VOID THROW LRTHROW THROWINT
     suspended_eval = lazy or (is_gen and k > 0)
@@ -78,17 +97,38 @@ def render(i, s):
     seq_first = s.get("seq_first", False)   # IN_SEQUENCE before TIMES
     ret_pos = s.get("ret_pos", k)     # position of the final clause among the yields
     bk = s.get("b", seq)              # B without a sequence is possible too
-    ae = argexpr(arity)
+    ae = argexpr(arity, ref)
+    match = MATCH_INT_REF if ref == "m" else MATCH
 
-    fin_clause, finc = {
-        "RET": (".CO_RETURN(rvf(d, %d))" % k, "F_RET"),
-        "LRRET": (".LR_CO_RETURN(rvf(ld, %d))" % k, "F_RET"),
-        "RETARG": (".CO_RETURN(rvf(d, %d) + 100000 * (%s))" % (k, ae), "F_RETARG"),
-        "VOID": (".CO_RETURN()", "F_VOID"),
-        "THROW": (".CO_THROW(mkerr(d))", "F_THROW"),
-        "LRTHROW": (".LR_CO_THROW(mkerr(ld))", "F_THROW"),
-        "THROWINT": (".CO_THROW(tag(d.ti))", "F_THROWINT"),
-    }[fin]
+    def pex(u):                       # the parameter expression of a clause that names _N
+        return writeexpr(ref) if u == "w" else ae
+
+    uf = use[k]
+    if uf == "n":
+        fin_clause, finc = {
+            "RET": (".CO_RETURN(rvf(d, %d))" % k, "F_RET"),
+            "LRRET": (".LR_CO_RETURN(rvf(ld, %d))" % k, "F_RET"),
+            "RETARG": (".CO_RETURN(rvf(d, %d) + 100000 * (%s))" % (k, ae), "F_RETARG"),
+            "VOID": (".CO_RETURN()", "F_VOID"),
+            "THROW": (".CO_THROW(mkerr(d))", "F_THROW"),
+            "LRTHROW": (".LR_CO_THROW(mkerr(ld))", "F_THROW"),
+            "THROWINT": (".CO_THROW(tag(d.ti))", "F_THROWINT"),
+        }[fin]
+    elif uf == "p":
+        fin_clause, finc = {
+            "RET": (".CO_RETURN((%s) * 2)" % ae, "F_RET"),
+            "LRRET": (".LR_CO_RETURN((%s) * 2)" % ae, "F_RET"),
+            "THROW": (".CO_THROW(std::runtime_error(std::to_string(%s)))" % ae, "F_THROW"),
+            "LRTHROW": (".LR_CO_THROW(std::runtime_error(std::to_string(%s)))" % ae, "F_THROW"),
+        }[fin]
+    else:
+        fin_clause, finc = {
+            "RET": (".CO_RETURN(rva(d, %d, %s))" % (k, pex(uf)), "F_RET"),
+            "LRRET": (".LR_CO_RETURN(rva(ld, %d, %s))" % (k, pex(uf)), "F_RET"),
+            "THROW": (".CO_THROW(mkerra(d, %s))" % pex(uf), "F_THROW"),
+            "LRTHROW": (".LR_CO_THROW(mkerra(ld, %s))" % pex(uf), "F_THROW"),
+            "THROWINT": (".CO_THROW(tag(d.ti) + 100000 * (%s))" % pex(uf), "F_THROWINT"),
+        }[fin]
 
     cl = []
     if w == 1:
@@ -106,7 +146,13 @@ def render(i, s):
         cl.append(fxc())
     body = []
     for j, y in enumerate(ys):
-        body.append(".CO_YIELD(yv(d, %d))" % j if y == "C" else ".LR_CO_YIELD(yv(ld, %d))" % j)
+        mac, dd, u = (".CO_YIELD", "d", use[j]) if y == "C" else (".LR_CO_YIELD", "ld", use[j])
+        if u == "n":
+            body.append("%s(yv(%s, %d))" % (mac, dd, j))
+        elif u == "p":
+            body.append("%s(%s)" % (mac, ae if j == 0 else "%s + %d" % (ae, j)))
+        else:
+            body.append("%s(yva(%s, %d, %s))" % (mac, dd, j, pex(u)))
     body.insert(ret_pos, fin_clause)
     if nfx >= 2:  # second side effect in the middle of the coroutine clauses
         body.insert(len(body) // 2, fxc())
@@ -120,10 +166,10 @@ def render(i, s):
     if arity == 0:
         args = ""
     elif arity == 1:
-        args = MATCH[mk][0]
+        args = match[mk][0]
     else:
-        args = MATCH[mk][0] + ", _"
-    fA = fn_name(arity, ty, lazy)
+        args = match[mk][0] + ", _"
+    fA = fn_name(arity, ty, lazy, ref)
     expA = "auto eA = %s(m, %s(%s))%s;" % (macro, fA, args, "".join(cl))
 
     b_arity, b_k = 0, 0
@@ -151,8 +197,10 @@ def render(i, s):
         i, tyc, "true" if lazy else "false", arity, k, finc, MATCH[mk][1] if mk else "M_NONE", "true" if w else "false", nfx,
         TIMES[tm][1], TIMES[tm][2], TIMES[tm][3], "true" if seq else "false", "true" if b_first else "false",
         {"PLAIN": "B_PLAIN", "CORO": "B_CORO", None: "B_NONE"}[bk], b_arity, b_k, text)
+    if ref:
+        info = info[:-1] + ", %s, \"%s\"}" % (REFS[ref][2], use)
     return ("#if Q_HAS(%d)\nstatic void s%d(Ctx& c) { static const SiteInfo I%s; if (c.begin(I)) return; SITE_PROLOGUE(MK_%s_%s); %s "
-            "c.drive(eA.get(), %s, %s, %s, [&] { %s }); }\nstatic const Reg r%d{%d, &s%d};\n#endif" % (i, i, info, ty, "l" if lazy else "e", exps.strip(), call_expr(arity, ty, lazy), eB, callB, "eA.reset(); eB.reset();" if bk else "eA.reset();", i, i, i))
+            "c.drive(eA.get(), %s, %s, %s, [&] { %s }); }\nstatic const Reg r%d{%d, &s%d};\n#endif" % (i, i, info, ty, "l" if lazy else "e", exps.strip(), call_expr(arity, ty, lazy, ref), eB, callB, "eA.reset(); eB.reset();" if bk else "eA.reset();", i, i, i))
 
 
 def build_sites():
@@ -213,6 +261,49 @@ def build_sites():
     add(ty="gii", lazy=False, arity=1, yields="CCC", fin="RET", ret_pos=1)
     add(ty="giv", lazy=True, arity=1, yields="CL", fin="THROW", ret_pos=0)
     add(ty="giv", lazy=False, arity=0, yields="CCCC", fin="VOID", ret_pos=2)
+
+    # ---- sites 80.. : reference parameters bound to caller-owned objects, named by clauses that run after the call
+    # returned. Matchers that let several different arguments through, bounds that admit 2-3 calls.
+    rmks = ["WILD", "GT", "NE", "ANY", "LE", "GE", "LT"]
+    rtimes = ["N2", "AL1", "R13", "RT", "ALLOW", "RT", "AM2"]
+    rn = [0]
+
+    def addref(**kw):
+        j = rn[0]
+        rn[0] += 1
+        kw.setdefault("mk", rmks[j % len(rmks)])
+        kw.setdefault("times", rtimes[j % len(rtimes)])
+        add(**kw)
+
+    # 80: the plainest shape (replays/C20/seed-late-param-use-two-calls.txt): lazy generator g(int const&), TIMES(2), CO_YIELD(_1)
+    addref(ty="giv", lazy=True, ref="c", yields="C", use="pn", fin="VOID", mk="WILD", times="N2", fx=0, seq=None)
+    # tasks: the final clause is the only one; eager ones evaluate it inside the call, lazy ones when awaited
+    for lazy in (True, False):
+        addref(ty="ti", lazy=lazy, ref="c", fin="RET", use="r")
+        addref(ty="ti", lazy=lazy, ref="c", fin="LRRET", use="p")
+        addref(ty="ti", lazy=lazy, ref="m", fin="RET", use="w")
+        addref(ty="ti", lazy=lazy, ref="m", fin="THROW", use="r")
+        addref(ty="ti", lazy=lazy, ref="cm", fin="RET", use="r")
+        addref(ty="ti", lazy=lazy, ref="cm", fin="LRTHROW", use="w")
+        addref(ty="ti", lazy=lazy, ref="c", fin="THROWINT", use="r")
+        addref(ty="tv", lazy=lazy, ref="c", fin="THROW", use="p")
+        addref(ty="tv", lazy=lazy, ref="m", fin="LRTHROW", use="w")
+    # generators
+    for ty in ("gii", "giv"):
+        for lazy in (True, False):
+            g = ty == "gii"
+            if not (ty == "giv" and lazy):  # that one is site 80
+                addref(ty=ty, lazy=lazy, ref="c", yields="C", use="pp" if g else "pn", fin="RET" if g else "VOID")
+            addref(ty=ty, lazy=lazy, ref="c", yields="CL", use="rrr", fin="RET" if g else "THROW")
+            addref(ty=ty, lazy=lazy, ref="m", yields="CLC", use="wrw" + ("r" if g else "n"), fin="LRRET" if g else "VOID")
+            addref(ty=ty, lazy=lazy, ref="m", yields="CC", use="nw" + ("r" if g else "w"), fin="THROWINT" if g else "THROW")
+            addref(ty=ty, lazy=lazy, ref="c", yields="LCCC", use="rnrp" + ("n" if g else "p"), fin="RET" if g else "LRTHROW")
+    for lazy in (True, False):
+        addref(ty="gii", lazy=lazy, ref="cm", yields="CL", use="rwr", fin="RET")
+        addref(ty="gii", lazy=lazy, ref="cm", yields="CCC", use="wpwr", fin="LRTHROW")
+    # the final clause written before / between the CO_YIELDs
+    addref(ty="gii", lazy=True, ref="c", yields="CC", use="rrr", fin="RET", ret_pos=0)
+    addref(ty="giv", lazy=False, ref="m", yields="CL", use="wwr", fin="THROW", ret_pos=1)
     return S
 
 
